@@ -838,7 +838,8 @@ def sequence_of_path_table(F, rep, rule="C03.8"):
 # =========================================================================== index construction (C03.2 / C19.1)
 
 def finish_tables(F, rep, rule="C19.1"):
-    """finish and finish_serial build the same two indices: keys = first / last k-mers of node i in index order, values = i"""
+    """finish and finish_serial build the same two indices: keys = first / last k-mers of node i in index order, values = i —
+    for graphs of 0, 1, 2 and 3 nodes, whatever the nodes' extensions are (every outcome of a query on them is explored)"""
     results = {}
     for fname in ("finish", "finish_serial"):
         try:
@@ -848,18 +849,21 @@ def finish_tables(F, rep, rule="C19.1"):
             continue
 
         class H(Oracles):
-            def __init__(self):
-                Oracles.__init__(self)
+            def __init__(self, script, n):
+                Oracles.__init__(self, script)
                 self.built = []
+                self.n = n
 
             def on_call(self, it, fn, args, dest_ty, term, caller):
                 path = fn.get("path", "")
                 name = path.split("::")[-1]
                 if path.startswith("graph::BaseGraph") and name == "len":
-                    return Int(64, False, val=3)
+                    return Int(64, False, val=self.n)
                 if "PackedDnaStringSet" in path and name == "get":
                     i = args[1].val if isinstance(args[1], Int) and args[1].is_conc() else "?"
                     return Opaque("DnaStringSlice", {"seq"}, {"node": i})
+                if "PackedDnaStringSet" in path and name == "len":
+                    return Int(64, False, val=self.n)
                 if fn.get("trait") == "Vmer" and name in ("first_kmer", "last_kmer", "term_kmer", "get_kmer"):
                     s_ = recv(it, args[0])
                     which = name
@@ -868,57 +872,93 @@ def finish_tables(F, rep, rule="C19.1"):
                     return Opaque("K", {"kmer"}, {"end": which, "node": s_.info.get("node")})
                 if "BoomHashMap" in path and name in ("new", "new_parallel", "new_serial"):
                     keys, vals = args[0], args[1]
-                    ks = [(k.info.get("end"), k.info.get("node")) for k in keys.elems] if isinstance(keys, VecV) else None
+                    ks = [(k.info.get("end"), k.info.get("node")) if isinstance(k, Opaque) else repr(k) for k in keys.elems] if isinstance(keys, VecV) else None
                     vs = [v.val if isinstance(v, Int) and v.is_conc() else "?" for v in vals.elems] if isinstance(vals, VecV) else None
                     self.built.append((name, ks, vs))
                     return Opaque("BoomHashMap", {"built-%d" % (len(self.built) - 1)})
                 if name == "clone" and args:
                     return recv(it, args[0])
+                # queries on a node's extensions: any answer is possible, the indices must not depend on it
+                if args and isinstance(recv(it, args[0]), Opaque) and "node-exts" in tags_of(recv(it, args[0])):
+                    e = recv(it, args[0])
+                    if name in ("num_exts_l", "num_exts_r", "num_ext_dir"):
+                        side = name[-1] if name != "num_ext_dir" else str(dir_of(args[1]))
+                        return Int(8, False, val=self.choose("#exts(node %s, side %s)" % (e.info.get("node"), side), (0, 1, 2)))
+                    if name in ("has_ext", "is_empty"):
+                        return mkbool(self.choose("%s(node %s)" % (name, e.info.get("node")), (False, True)))
                 return NotImplemented
-        h = H()
-        it = Interp(F, False, h)
-        me = struct_of(F, "graph::BaseGraph", {"sequences": Opaque("PackedDnaStringSet", {"sequences"}), "exts": Opaque("Vec", {"exts-vec"}),
-                                                "data": Opaque("Vec", {"data-vec"}), "stranded": mkbool(False)})
-        rep.evaluations += 1
-        try:
-            r = it.call_body(body, [me])
-        except (Undecided, Unsupported) as e:
-            rep.inconclusive(rule, fname, "%s: %s" % (fname, e))
-            continue
-        except Diverge as e:
-            rep.violated(rule, fname, "%s diverges: %s" % (fname, e), site=F.site(body, body["line"]))
-            continue
+
+            def opaque_index(self, it, v, idx, base):
+                if "exts-vec" in tags_of(v) and isinstance(idx, Int) and idx.is_conc():
+                    return Ref(Cell(Opaque("Exts", {"node-exts"}, {"node": idx.val}), "exts[%d]" % idx.val))
+                return None
+
+            def opaque_len(self, it, v):
+                if "exts-vec" in tags_of(v) or "data-vec" in tags_of(v):
+                    return Int(64, False, val=self.n)
+                return None
+
         names = [f["name"] for f in F.adts["graph::DebruijnGraph"]["variants"][0]["fields"]]
-        if not (isinstance(r, Adt) and r.name == "graph::DebruijnGraph"):
-            rep.inconclusive(rule, fname, "%s returns %r" % (fname, r))
+        per_n = {}
+        bad = False
+        inc = None
+        rows = 0
+        for n in (0, 1, 2, 3):
+            def run(h):
+                it = Interp(F, False, h)
+                me = struct_of(F, "graph::BaseGraph", {"sequences": Opaque("PackedDnaStringSet", {"sequences"}), "exts": Opaque("Vec", {"exts-vec"}),
+                                                        "data": Opaque("Vec", {"data-vec"}), "stranded": mkbool(False)})
+                return it.call_body(body, [me])
+            for a_, r, h in explore(lambda script, n=n: H(script, n), run):
+                rows += 1
+                rep.evaluations += 1
+                if isinstance(r, tuple) and r and r[0] == "inconclusive":
+                    inc = inc or r[1]
+                    continue
+                if isinstance(r, tuple) and r and r[0] == "diverge":
+                    rep.violated(rule, fname, "%s diverges on a graph of %d node(s): %s" % (fname, n, r[1]), site=F.site(body, body["line"]))
+                    bad = True
+                    break
+                if not (isinstance(r, Adt) and r.name == "graph::DebruijnGraph"):
+                    inc = inc or "%s returns %r" % (fname, r)
+                    continue
+                slots = {}
+                for nm in ("left_order", "right_order"):
+                    v = r.fields[names.index(nm)]
+                    idx = None
+                    for t in tags_of(v):
+                        if t.startswith("built-"):
+                            idx = int(t[6:])
+                    slots[nm] = h.built[idx] if idx is not None and idx < len(h.built) else None
+                want = {"left_order": [("first_kmer", i) for i in range(n)], "right_order": [("last_kmer", i) for i in range(n)]}
+                for nm in ("left_order", "right_order"):
+                    b_ = slots[nm]
+                    if b_ is None or b_[1] != want[nm] or b_[2] != list(range(n)):
+                        rep.violated(rule, "%s/%s" % (fname, nm),
+                                     "%s on a graph of %d node(s)%s: the %s index is built from keys %s and values %s; required: the %s of node i paired with i, for "
+                                     "every i = 0..n — a node end that is not indexed is never found by find_link" % (
+                                         fname, n, (" with " + ", ".join("%s = %s" % kv for kv in sorted(a_.items()))) if a_ else "", nm,
+                                         b_[1] if b_ else None, b_[2] if b_ else None, "first k-mer" if nm == "left_order" else "last k-mer"),
+                                     site=F.site(body, body["line"]), witness={"kind": "index-identity", "got": repr(b_), "n": n})
+                        bad = True
+                if bad:
+                    break
+                per_n.setdefault(n, (slots, [b_[0] for b_ in h.built]))
+            if bad:
+                break
+        if bad:
             continue
-        slots = {}
-        for nm in ("left_order", "right_order"):
-            v = r.fields[names.index(nm)]
-            idx = None
-            for t in tags_of(v):
-                if t.startswith("built-"):
-                    idx = int(t[6:])
-            slots[nm] = h.built[idx] if idx is not None and idx < len(h.built) else None
-        want = {"left_order": [("first_kmer", i) for i in range(3)], "right_order": [("last_kmer", i) for i in range(3)]}
-        ok = True
-        for nm in ("left_order", "right_order"):
-            b = slots[nm]
-            if b is None or b[1] != want[nm] or b[2] != [0, 1, 2]:
-                rep.violated(rule, "%s/%s" % (fname, nm),
-                             "%s: the %s index is built from keys %s and values %s; required: the %s of node i paired with i, for i = 0..n" % (
-                                 fname, nm, b[1] if b else None, b[2] if b else None, "first k-mer" if nm == "left_order" else "last k-mer"),
-                             site=F.site(body, body["line"]), witness={"kind": "index-identity", "got": repr(b)})
-                ok = False
-        base_ok = r.fields[names.index("base")] is me or (isinstance(r.fields[names.index("base")], Adt) and r.fields[names.index("base")].name == "graph::BaseGraph")
-        if ok and base_ok:
-            rep.holds(rule, fname, "%s: left index = {first k-mer of node i -> i}, right index = {last k-mer of node i -> i}, base graph moved in unchanged" % fname)
-        results[fname] = (slots, [b[0] for b in h.built])
+        if inc:
+            rep.inconclusive(rule, fname, "%s: %s" % (fname, inc))
+            continue
+        rep.holds(rule, fname, "%s: for graphs of 0..3 nodes and every answer to a query on the nodes' extensions (%d rows): left index = {first k-mer of node i -> i}, "
+                  "right index = {last k-mer of node i -> i}" % (fname, rows))
+        results[fname] = per_n
     if len(results) == 2:
         a, b = results["finish"], results["finish_serial"]
-        same = all((a[0][nm] and b[0][nm] and a[0][nm][1:] == b[0][nm][1:]) for nm in ("left_order", "right_order"))
+        same = all(n in a and n in b and all((a[n][0][nm] and b[n][0][nm] and a[n][0][nm][1:] == b[n][0][nm][1:]) for nm in ("left_order", "right_order")) for n in (0, 1, 2, 3))
         if same:
-            rep.holds(rule, "finish≡finish_serial", "the parallel and the serial builder receive identical keys and values; they differ only in the constructor (%s vs %s)" % (a[1], b[1]))
+            rep.holds(rule, "finish≡finish_serial", "the parallel and the serial builder receive identical keys and values; they differ only in the constructor (%s vs %s)" % (a[3][1], b[3][1]))
         else:
             rep.violated(rule, "finish≡finish_serial", "finish and finish_serial hand different key/value sequences to the index constructor")
 
